@@ -166,6 +166,8 @@ type c07Sess struct {
 	nPfx  int
 	extra []*c07Remote
 	// the speaker described by the last OPEN (for the UPDATEs it sends)
+	queuedC       *c07Remote   // completed outgoing connection handed to fsm.outgoingConnCh during a session
+	all           []*c07Remote // every connection of the scenario
 	remoteAS      int
 	lastOpen      string
 	twoByte       bool
@@ -254,7 +256,7 @@ func c07StartPeer(t *testing.T, cfg c07Cfg, peerConf *api.Peer) *c07Sess {
 }
 
 func (ss *c07Sess) stop() {
-	for _, c := range append([]*c07Remote{ss.pas, ss.out}, ss.extra...) {
+	for _, c := range append([]*c07Remote{ss.pas, ss.out, ss.queuedC}, ss.extra...) {
 		if c != nil {
 			ss.rec.mu.Lock()
 			c.closed = true
@@ -306,6 +308,7 @@ func (ss *c07Sess) connect() {
 	} else {
 		ss.extra = append(ss.extra, rem)
 	}
+	ss.all = append(ss.all, rem)
 	go ss.rec.reader(rem)
 	_ = ss.s.mgmtOperation(func() error { ss.s.passConnToPeer(rem.theirs); return nil }, false)
 }
@@ -313,7 +316,12 @@ func (ss *c07Sess) connect() {
 // outgoing: play the outgoing-connection manager: a connection on which OPENs were exchanged.
 func (ss *c07Sess) outgoing(open []byte) {
 	rem := c07Pipe("o", c07PeerAddr, c07LocalAddr, 179)
-	ss.out = rem
+	if st := ss.peer.fsm.state.Load(); st == bgp.BGP_FSM_OPENCONFIRM || st == bgp.BGP_FSM_ESTABLISHED {
+		ss.queuedC = rem // nobody reads fsm.outgoingConnCh in these states: it waits there
+	} else {
+		ss.out = rem
+	}
+	ss.all = append(ss.all, rem)
 	go ss.rec.reader(rem)
 	om, _ := bgp.ParseBGPMessage(open)
 	ss.peer.fsm.outgoingConnCh <- outgoingConn{conn: rem.theirs, open: om}
@@ -679,6 +687,11 @@ func (ss *c07Sess) observe() c07Obs {
 		}
 		canon = append(canon, s)
 	}
+	// what is written on different connections is seen by different readers: only the order on
+	// each connection is defined; connections in the fixed order p, x, o (as the model renders)
+	sort.SliceStable(canon, func(i, j int) bool {
+		return strings.Index("pxo", canon[i][:1]) < strings.Index("pxo", canon[j][:1])
+	})
 	for i, s := range st {
 		if strings.HasPrefix(s, "-1>") {
 			st[i] = "deleted" + s[strings.Index(s, "@"):]
@@ -887,7 +900,8 @@ func (or *c07Oracle) check(e c07Ev, before c07Obs, tBefore int, after c07Obs, tA
 			or.fail(class, fmt.Sprintf("connection lost at %d: reported transitions %v, state %d (want %s…@%d at once)", tAfter, after.st, after.fsm, down, tAfter))
 		case len(after.reasons) == 0 || after.reasons[0] != "read-failed":
 			or.fail(class, fmt.Sprintf("connection lost at %d: state reason %q, want read-failed", tAfter, after.reasons))
-		case len(after.out) != 0:
+		case len(after.out) != 0 && !(len(after.out) == 1 && after.out[0] == fmt.Sprintf("o:close@%d", tAfter)):
+			// (closing a completed outgoing connection that was still waiting is part of the teardown)
 			or.fail(class, fmt.Sprintf("connection lost at %d: the daemon wrote %v", tAfter, after.out))
 		}
 	}
@@ -1077,9 +1091,9 @@ func c07Gen(r *vRand, cfg c07Cfg, state int, hold int) c07Ev {
 	case 3:
 		k = w("open", 60, "keepalive", 4, "update", 3, "notification", 3, "refresh", 2, "badheader", 6, "close", 3, "connlost", 5, "tick", 8, "disable", 4, "enable", 2, "shutdown", 2, "reset", 1, "connect", 2, "delete", 1)
 	case 4:
-		k = w("keepalive", 50, "tick", 16, "open", 4, "update", 4, "refresh", 3, "notification", 4, "badheader", 5, "close", 3, "connlost", 6, "disable", 4, "enable", 2, "shutdown", 2, "reset", 1, "connect", 2, "delete", 1)
+		k = w("keepalive", 50, "tick", 16, "open", 4, "update", 4, "refresh", 3, "notification", 4, "badheader", 5, "close", 3, "connlost", 6, "outgoing", 5, "disable", 4, "enable", 2, "shutdown", 2, "reset", 1, "connect", 2, "delete", 1)
 	case 5:
-		k = w("keepalive", 18, "update", 20, "tick", 24, "refresh", 4, "notification", 4, "open", 4, "badheader", 5, "close", 3, "connlost", 8, "disable", 4, "shutdown", 4, "reset", 4, "enable", 2, "connect", 2, "delete", 2)
+		k = w("keepalive", 18, "update", 20, "tick", 24, "refresh", 4, "notification", 4, "open", 4, "badheader", 5, "close", 3, "connlost", 8, "outgoing", 6, "disable", 4, "shutdown", 4, "reset", 4, "enable", 2, "connect", 2, "delete", 2)
 	default:
 		k = w("tick", 3, "connect", 3, "enable", 1, "keepalive", 1)
 	}
@@ -1148,8 +1162,10 @@ func c07Scenario(t *testing.T, o *vOut, cfg c07Cfg, seed uint64, maxLen int, scr
 					e = c07Gen(r, cfg, before.fsm, hold)
 				}
 			}
-			if e.kind == "outgoing" && before.fsm != 2 {
-				e = c07Ev{kind: "tick", n: 1} // the hand-over is only modelled in ACTIVE
+			if e.kind == "outgoing" && !(before.fsm == 2 || ((before.fsm == 4 || before.fsm == 5) && !ss.live(ss.out) && !ss.live(ss.queuedC))) {
+				// modelled: the hand-over in ACTIVE, and a completed outgoing connection that
+				// arrives while the session runs on the accepted one (it waits in the channel)
+				e = c07Ev{kind: "tick", n: 1}
 			}
 			if e.kind == "outgoing" {
 				// the harness plays the outgoing-connection manager, which only hands over
@@ -1160,7 +1176,7 @@ func c07Scenario(t *testing.T, o *vOut, cfg c07Cfg, seed uint64, maxLen int, scr
 					e.nocap, e.myas, e.layout = false, c07MyAS(e.as), ""
 				}
 			}
-			if (e.kind == "open" && before.fsm == 3) || e.kind == "outgoing" {
+			if (e.kind == "open" && before.fsm == 3) || (e.kind == "outgoing" && before.fsm == 2) {
 				ibgp = e.eff() == int(cfg.localAS)
 				ss.remoteAS, ss.twoByte, ss.lastOpen = e.eff(), e.nocap, e.wire()
 				hold = min(e.hold, cfg.hold)
@@ -1178,6 +1194,26 @@ func c07Scenario(t *testing.T, o *vOut, cfg c07Cfg, seed uint64, maxLen int, scr
 			}
 			o.ask(after.String(), "%s", e.line())
 			or.check(e, before, tb, after, ss.rec.now())
+			// nothing of the old session generation survives a teardown: every connection is
+			// closed, fsm.outgoingConnCh is empty, and a session leaves ACTIVE only on a
+			// connection that arrives now
+			for _, tr := range after.st {
+				down := strings.Contains(tr, ">0/") || strings.HasPrefix(tr, "deleted")
+				if down {
+					var left []string
+					for _, c := range ss.all {
+						if ss.live(c) {
+							left = append(left, c.tag)
+						}
+					}
+					if n := len(ss.peer.fsm.outgoingConnCh); n > 0 || len(left) > 0 {
+						or.fail("old-generation-connection-survives:"+e.kind, fmt.Sprintf("after %s: connections still open %v, %d queued in fsm.outgoingConnCh", tr, left, n))
+					}
+				}
+				if (strings.HasPrefix(tr, "2>4/") && e.kind != "outgoing") || (strings.HasPrefix(tr, "2>3/") && e.kind != "connect") {
+					or.fail("session-from-old-generation-connection:"+e.kind, fmt.Sprintf("%s without a new connection; daemon wrote %v", tr, after.out))
+				}
+			}
 			if after.fsm == 5 && before.fsm != 5 {
 				// the peer's identity the session runs with is the OPEN's semantic content,
 				// however its capabilities were laid out
@@ -1212,6 +1248,10 @@ func c07Scenario(t *testing.T, o *vOut, cfg c07Cfg, seed uint64, maxLen int, scr
 					ue.kind, ue.hold, ue.id, ue.ver = "open", int(b.HoldTime), c07IDNum(b.ID.String()), int(b.Version)
 					if sub, bad := c07RfcNotif(3, ue, cfg, 0); bad || ue.hold != e.hold || ue.id != e.id {
 						or.fail("session-from-unvalidated-open:"+path, fmt.Sprintf("session negotiated from OPEN %+v (sent %s; RFC verdict %q)", ue, e.wire(), sub))
+					}
+					if ki := ss.peer.fsm.pConf.ReadOnly().Timers.State.KeepaliveInterval; e.hold == 0 && cfg.hold > 0 && ki != 0 {
+						// the peer asked for hold time 0: no keepalives, and none reported
+						or.fail("reported-timers:keepalive-interval-with-zero-hold-time", fmt.Sprintf("peer's hold time 0, configured %d/%d: Timers.State.KeepaliveInterval = %v", cfg.hold, cfg.cfgKa(), ki))
 					}
 					if neg != min(e.hold, cfg.hold) {
 						or.fail("session-from-unvalidated-open:timers:"+path, fmt.Sprintf("negotiated hold %d from OPEN hold %d, configured %d", neg, e.hold, cfg.hold))
@@ -1670,6 +1710,24 @@ func c07Corpus(t *testing.T, o *vOut) bool {
 		// hand-over by the outgoing-connection manager in ACTIVE
 		{c07OpenEv("outgoing", 65002, c07IDNum("2.2.2.2"), 30), ev("keepalive"), tick(30)},
 	}
+	// a completed outgoing connection arrives while the session runs on the accepted one, then the
+	// session (or the attempt) ends in every way: nothing of it may survive, the next session needs
+	// a NEW connection
+	for _, est := range []bool{false, true} {
+		for _, td := range [][]c07Ev{
+			{ev("disable"), tick(2), ev("enable")}, {ev("shutdown")}, {ev("reset")}, {tick(30)}, {ev("close")},
+			{{kind: "connlost", n: 2}}, {ev("notification")}, {{kind: "badheader", n: 0}}, {op(30)}, {ev("delete")},
+		} {
+			sc := []c07Ev{ev("connect"), op(30)}
+			if est {
+				sc = append(sc, ev("keepalive"))
+			}
+			sc = append(sc, c07OpenEv("outgoing", 65002, c07IDNum("2.2.2.2"), 30))
+			sc = append(sc, td...)
+			sc = append(sc, tick(31), tick(6), ev("connect"), op(30), ev("keepalive"), tick(1))
+			scripts = append(scripts, sc)
+		}
+	}
 	for _, sc := range scripts {
 		c07Scenario(t, o, base, 1, len(sc)+1, sc)
 	}
@@ -1822,6 +1880,7 @@ func c07Collision(t *testing.T, o *vOut, cfg c07Cfg, path string, inc, out c07Ev
 		if f.state.Load() != bgp.BGP_FSM_OPENSENT {
 			t.Fatalf("collision scenario: not in OPENSENT")
 		}
+		staging := path
 		f.lock.Lock()
 		if path == "both-ready" {
 			// park the handler inside its select loop (an adminStateUp request makes it take
@@ -1905,6 +1964,10 @@ func c07Collision(t *testing.T, o *vOut, cfg c07Cfg, path string, inc, out c07Ev
 			if (usedEv == &inc) != (onConn == "p") {
 				o.fail("session-from-unvalidated-open:wrong-connection:collision-"+path, detail)
 			}
+			if incIsBad && !strings.Contains(sent, "p:notif-"+incBad+"@") {
+				// the refused OPEN on the accepted connection is answered (and that connection closed)
+				o.fail("notification:state3-open", detail)
+			}
 			if !incIsBad {
 				// two acceptable OPENs of one speaker: RFC 4271 6.8 / RFC 6286 decide
 				localWins := uint64(c07IDNum(cfg.localID))<<32|uint64(cfg.localAS) > uint64(out.id)<<32|uint64(out.eff())
@@ -1924,8 +1987,70 @@ func c07Collision(t *testing.T, o *vOut, cfg c07Cfg, path string, inc, out c07Ev
 			o.fail("collision:no-session:"+path, detail)
 		}
 		o.stat("collision_"+path+"_"+strings.Fields(got)[0], 1)
+
+		// teardown -> re-enable: whatever the collision left behind, after the session (or the
+		// refused attempt) has ended NO connection of this generation survives and the next
+		// session needs a NEW connection
+		if staging == "incoming-first" && strings.HasPrefix(got, "refused") {
+			// this staging hands the outgoing connection over AFTER the refusal has brought the
+			// handler back to IDLE — a stopped manager could not: not a connection of the old generation
+			return
+		}
+		c07CollisionNo++
+		td := []string{"disable", "shutdown", "reset", "hold-expiry", "remote-close", "delete"}[c07CollisionNo%6]
+		ctx := context.Background()
+		if f.state.Load() == bgp.BGP_FSM_OPENCONFIRM {
+			ss.send(ss.cur(), c07Keepalive())
+			synctest.Wait()
+			if f.state.Load() == bgp.BGP_FSM_ESTABLISHED {
+				switch td {
+				case "disable":
+					_ = ss.s.DisablePeer(ctx, &api.DisablePeerRequest{Address: c07PeerAddr})
+				case "shutdown":
+					_ = ss.s.ShutdownPeer(ctx, &api.ShutdownPeerRequest{Address: c07PeerAddr})
+				case "reset":
+					_ = ss.s.ResetPeer(ctx, &api.ResetPeerRequest{Address: c07PeerAddr})
+				case "hold-expiry":
+					if h := int(f.pConf.ReadOnly().Timers.State.NegotiatedHoldTime); h > 0 {
+						time.Sleep(time.Duration(h) * time.Second)
+					} else {
+						ss.closeCur()
+					}
+				case "remote-close":
+					ss.closeCur()
+				case "delete":
+					_ = ss.s.DeletePeer(ctx, &api.DeletePeerRequest{Address: c07PeerAddr})
+				}
+				synctest.Wait()
+			}
+		}
+		ss.rec.drain()
+		var left []string
+		for _, c := range ss.all {
+			if ss.live(c) {
+				left = append(left, c.tag)
+			}
+		}
+		gen := map[string]any{"cfg": fmt.Sprintf("%+v", cfg), "collision": path, "incoming-open": inc.wire(), "outgoing-open": out.wire(), "teardown": td}
+		if n := len(f.outgoingConnCh); n > 0 || len(left) > 0 {
+			gen["what"] = fmt.Sprintf("after the collision (%s) and %s: connections still open %v, %d queued in fsm.outgoingConnCh, state %v", got, td, left, n, f.state.Load())
+			o.fail("old-generation-connection-survives:collision:"+td, gen)
+		}
+		if td != "delete" {
+			_ = ss.s.EnablePeer(ctx, &api.EnablePeerRequest{Address: c07PeerAddr})
+			time.Sleep(36 * time.Second)
+			synctest.Wait()
+			later, _ := ss.rec.drain()
+			if st := f.state.Load(); st != bgp.BGP_FSM_ACTIVE || len(later) > 0 {
+				gen["what"] = fmt.Sprintf("36 s after %s (+enable) without any new connection: state %v, daemon wrote %v", td, st, later)
+				o.fail("session-from-old-generation-connection:collision:"+td, gen)
+			}
+		}
+		o.stat("collision_then_"+td, 1)
 	})
 }
+
+var c07CollisionNo int
 
 func c07Collisions(t *testing.T, o *vOut) {
 	local := c07IDNum("1.1.1.1")
